@@ -16,7 +16,10 @@ const (
 	ErrImpl     = NumTypes + 3 // TE, a token-carrying implementation of error
 	SliceDef    = NumTypes + 4 // B0, a defined slice type (token in element 0)
 	SliceRaw    = NumTypes + 5 // []uint64, the unnamed type B0 is built on (used in filters only)
-	NumTypesAll = NumTypes + 6
+	PtrIface    = NumTypes + 6 // *I0, a pointer to an interface type: concrete, implemented by nothing
+	ArrA        = NumTypes + 7 // [1]uint64, an unnamed array type (token in element 0)
+	ArrB        = NumTypes + 8 // [2]uint64, another one
+	NumTypesAll = NumTypes + 9
 )
 
 // B0 is a defined type over an unnamed composite type: B0 values are
@@ -30,7 +33,8 @@ type TE struct{ ID uint64 }
 func (e TE) Error() string { return fmt.Sprintf("TE#%d", e.ID) }
 
 func init() {
-	Types = append(Types, reflect.TypeOf(alt.T0{}), reflect.TypeOf(alt.T1{}), reflect.TypeOf((*error)(nil)).Elem(), reflect.TypeOf(TE{}), reflect.TypeOf(B0{}), reflect.TypeOf([]uint64{}))
+	Types = append(Types, reflect.TypeOf(alt.T0{}), reflect.TypeOf(alt.T1{}), reflect.TypeOf((*error)(nil)).Elem(), reflect.TypeOf(TE{}), reflect.TypeOf(B0{}), reflect.TypeOf([]uint64{}),
+		reflect.PtrTo(Types[IfaceBase]), reflect.TypeOf([1]uint64{}), reflect.TypeOf([2]uint64{}))
 	for i, t := range Types {
 		simrt.RegisterType(t, i)
 	}
@@ -105,6 +109,14 @@ func MakeValue(t int, id uint64) interface{} {
 		return B0{id}
 	case t == SliceRaw:
 		return []uint64{id}
+	case t == PtrIface:
+		p := reflect.New(Types[IfaceBase])
+		p.Elem().Set(reflect.ValueOf(MakeValue(Implementors(IfaceBase)[0], id)))
+		return p.Interface()
+	case t == ArrA:
+		return [1]uint64{id}
+	case t == ArrB:
+		return [2]uint64{id, 0}
 	default:
 		return MakeValue(Implementors(t)[0], id)
 	}
@@ -132,6 +144,13 @@ func Decode(v reflect.Value) (id uint64, dyn int, ok bool) {
 			return 0, dyn, true
 		}
 		v = v.Elem()
+		if v.Kind() == reflect.Interface { // PtrIface
+			id, _, ok = Decode(v)
+			return id, dyn, ok
+		}
+	}
+	if v.Kind() == reflect.Array {
+		return v.Index(0).Uint(), dyn, true
 	}
 	if v.Kind() == reflect.Slice {
 		if v.Len() == 0 {
